@@ -366,14 +366,23 @@ pub fn draw_universe(rng: &mut Rng, sw: &Swarm, n_syn: usize) -> Universe {
         if !sw.escapes {
             hs.retain(|h| !(corpus::L0_..=corpus::L4_).contains(h));
         }
-        hs.retain(|h| !(corpus::VEC_A0..corpus::AUTO2_FROM).contains(h));
+        hs.retain(|h| !(corpus::VEC_A0..corpus::AUTO2_FROM).contains(h) && corpus::usable(*h));
         if !sw.unit_as {
             // `as` on a unit variant (known finding F7) only when the run opts in
             hs.retain(|h| *h != corpus::W3_);
         }
-        rng.shuffle(&mut hs);
-        let k = rng.range(2, 8).min(hs.len());
-        pool.extend(hs.into_iter().take(k).map(|h| DER_BASE + h as Ty));
+        // table-placed families (which can share files and move around) and the generated
+        // combinatorial corpus (default placement) get an equal share of the picks
+        let (mut placed, mut combos): (Vec<usize>, Vec<usize>) = hs.into_iter().partition(|h| *h < corpus::COMBO_FROM);
+        rng.shuffle(&mut placed);
+        rng.shuffle(&mut combos);
+        let k = rng.range(2, 8);
+        for _ in 0..k {
+            let from = if combos.is_empty() || (!placed.is_empty() && rng.pct(60)) { &mut placed } else { &mut combos };
+            if let Some(h) = from.pop() {
+                pool.push(DER_BASE + h as Ty);
+            }
+        }
     }
     Universe { table, pool, leaves }
 }
